@@ -77,12 +77,27 @@ let rec canon (g : n geomT) : n geomT =
 let b2c b = if b then '1' else '0'
 
 (* IsSimple is a floating-point predicate of the implementation; where it misjudges a closed line
-   (observed when its cross products underflow: ordinates below about 1e-162), the failures of
+   (observed when its cross products underflow or overflow: ordinates below about 1e-162 or above
+   about 1e150), or judges a closed line and a rotation/reversal of it differently, the failures of
    the IgnoreOrder statements are reported under a separate check name (finding F51). *)
 let issimple_misjudged (gs : n geomT list) : bool =
   let bad = ref false in
+  let tbl = Hashtbl.create 16 in
   let line (l : n lineT) =
-    if is_closed feq_bits l && simple l <> simple_exact l then bad := true in
+    if is_closed feq_bits l then begin
+      if simple l <> simple_exact l then bad := true;
+      (* the same closed curve (up to rotation/reversal/-0) judged differently *)
+      let MkLine (ct, vs) = l in
+      if ends_eq feq_bits (xy_eq_bits N0) l && List.length vs >= 2 then begin
+        let vs' = List.map (nzv ct) vs in
+        let rots = List.map close (rotations (drop_last vs')) in
+        let key = (ct, min_list (rots @ List.map List.rev rots)) in
+        let sv = simple l in
+        match Hashtbl.find_opt tbl key with
+        | Some s' -> if sv <> s' then bad := true
+        | None -> Hashtbl.replace tbl key sv
+      end
+    end in
   let poly (MkPoly (_, rs)) = List.iter line rs in
   let rec go = function
     | GPoint _ | GMPoint _ -> ()
@@ -185,6 +200,34 @@ let () =
       if has "P0" && ob 0 false 0 then fail id "SPEC" "expected_unequal" cls;
       if has "I1" && not (ob 0 true 0) then fail_io "move_not_ignored" cls;
       if has "I0" && ob 0 true 0 then fail_io "more_than_order_ignored" cls;
+      if has "T0" then
+        for ti = 1 to nt - 1 do
+          List.iter (fun io ->
+              if ob ti io 0 || ob ti io 1 then
+                fail id "SPEC" "expected_unequal_under_tolerance" (Printf.sprintf "%s tol=%s io=%b" cls tols.(ti) io))
+            [false; true]
+        done;
+      (* SPEC: no option makes values with different numbers of control points (or of empty points) equal *)
+      let rec census (g : n geomT) : int * int =
+        let pt (MkPoint (_, c)) = (match c with None -> (0, 1) | Some _ -> (1, 0)) in
+        let ln (MkLine (_, vs)) = (List.length vs, 0) in
+        let sum l = List.fold_left (fun (a, b) (c, d) -> (a + c, b + d)) (0, 0) l in
+        let py (MkPoly (_, rs)) = sum (List.map ln rs) in
+        match g with
+        | GPoint p -> pt p
+        | GLine l -> ln l
+        | GPoly p -> py p
+        | GMPoint (_, ps) -> sum (List.map pt ps)
+        | GMLine (_, ls) -> sum (List.map ln ls)
+        | GMPoly (_, ps) -> sum (List.map py ps)
+        | GColl (_, gs) -> sum (List.map census gs) in
+      if census g <> census h then
+        for ti = 0 to nt - 1 do
+          List.iter (fun io ->
+              if ob ti io 0 || ob ti io 1 then
+                fail id "SPEC" "control_point_census" (Printf.sprintf "equal under tol=%s io=%b although the numbers of control points / empty points differ" tols.(ti) io))
+            [false; true]
+        done;
       if !samples < 4 && (cls = "one_move" || cls = "ulp") then begin
         incr samples;
         Printf.printf "SAMPLE\t%s %s G=[%s] H=[%s] obs=%s expect=%s\n" id cls (trunc f.(2)) (trunc f.(3)) obs expect
